@@ -32,6 +32,7 @@ func checkQueueRec(t *testing.T, rec *harness.Recorder, prop string, gen func(rt
 			}
 		}
 		rec.Case(p.JSON(), p.Hash(), res.Counters, res.Nontrivial, res.V)
+		abortOnHang(rec, res.V)
 		if res.V != nil {
 			rt.Fatalf("%s violated: %v", prop, res.V)
 		}
